@@ -40,6 +40,7 @@ CASE_TYPES = {
     "chk_kak_family": "nat * Q * Q",
     "chk_conj": "string * Q * Q * Q",
     "chk_basis": "list nat * list Q * list (list Q) * list (bool * option obs)",
+    "chk_gate_mat": "nat * Q * Q * Q * Q * list (list (Q * Q))",
 }
 
 PI = math.pi
@@ -429,6 +430,23 @@ def run_sequence(case):
     return case
 
 
+GATEMAT = {"rzx": 0, "xx_plus_yy": 1, "xx_minus_yy": 2}
+
+
+def run_gatemat(case):
+    """Gate.to_matrix() of the named KAK-path gates (tie of the hand-written matrices of Model/KappaGates.v)."""
+    g = case["gate"]
+    if g == "rzx":
+        m = RZXGate(case["theta"]).to_matrix()
+    elif g == "xx_plus_yy":
+        m = XXPlusYYGate(case["theta"], case["beta"]).to_matrix()
+    else:
+        m = XXMinusYYGate(case["theta"], case["beta"]).to_matrix()
+    case = dict(case)
+    case["impl"] = mat_json(m)
+    return case
+
+
 def run_sameobj(case):
     """Take basis.coeffs, edit elements of that very object in place, assign the SAME object back through the
     setter, then read kappa / probabilities / overhead.  (The edit alone does not run the setter - out of scope -
@@ -672,6 +690,22 @@ def generate(rng, tier, outdir):
         w.count("basis.refused_reassignments", sum(1 for s in steps[1:] if s["refused"]))
         jc(case, "basis.judge")
 
+    # ---------------- matrices of rzx / xx_plus_yy / xx_minus_yy (theorems c15_*_is_kak are about these) ----------------
+    for it in range(36 if quick else 600):
+        gate = ["rzx", "xx_plus_yy", "xx_minus_yy"][it % 3]
+        theta = [float(rng.uniform(-8 * PI, 8 * PI)), float(rng.choice(special_angles())), near_special(rng, 1)[0]][int(rng.integers(0, 3))]
+        beta = 0.0 if gate == "rzx" else (float(rng.choice(betas)) if rng.integers(0, 2) else float(rng.uniform(-8 * PI, 8 * PI)))
+        gc = guarded(run_gatemat, dict(kind="gatemat", gate=gate, theta=theta, beta=beta))
+        if isinstance(gc["impl"], dict):   # crashed
+            rows = []
+        else:
+            rows = [[(qf(z[0]), qf(z[1])) for z in row] for row in gc["impl"]]
+        w.add("gatemat", "chk_gate_mat",
+              (GATEMAT[gate], qf(math.cos(theta / 2)), qf(math.sin(theta / 2)), qf(math.cos(beta)), qf(math.sin(beta)), rows),
+              gc, nontrivial=True)
+        w.count("gatemat.gate", gate)
+        jc(gc, "gatemat.judge")
+
     # ---------------- the same coefficient object edited in place and assigned back ----------------
     for it in range(40 if quick else 600):
         if it % 4 == 0:
@@ -828,6 +862,8 @@ def judge(case):
     bad = []
     if kind in ("named", "kak", "kakfam", "conj", "seq_fresh") and ("crashed" in case["impl"] or not obs_finite(case["impl"])):
         return dict(violates=True, detail="; ".join(invariants(case["impl"])))
+    if kind == "gatemat":
+        return dict(violates=False, detail="tie of the model's gate matrices to Qiskit's Gate.to_matrix(); not a clause of the property")
     if kind == "sameobj":
         if "crashed" in case["impl"]:
             return dict(violates=True, detail=f"implementation raised {case['impl']['crashed']}")
@@ -911,6 +947,8 @@ def rerun(case):
         return run_basis(case)
     if kind == "sameobj":
         return guarded(run_sameobj, case)
+    if kind == "gatemat":
+        return guarded(run_gatemat, case)
     if kind == "seq_fresh":
         r = guarded(run_sequence, dict(script=case["script"], targets=[case["target"]]))
         case["impl"] = r["impl"] if "crashed" in r["impl"] else r["impl"]["fresh"][0]
